@@ -7,6 +7,7 @@
   `ans` turns a result into the observable answer (`some v` / `none` = raised).
 -/
 import BioCantor.Proofs.PointMaps
+import BioCantor.Proofs.RelInterval
 namespace BioCantor.Props.C01
 open BioCantor BioCantor.Spec BioCantor.Model BioCantor.Proofs
 
@@ -22,6 +23,14 @@ theorem p2r_spec (l : Location) (h : WF l) (p : Int) : okP2R l p (ans (p2r l p))
 theorem r2p_inverts_p2r (l : Location) (h : WF l) (p r : Int) (hp : p2r l p = .ok r) :
     r2p l r = .ok p :=
   r2p_of_p2r l h p r hp
+
+/-- T3: a relative sub-interval converted to the parent has the composed strand, is well formed
+    (normalised for non-self-overlapping layouts) and covers exactly the bases `(bases l)[rs:re]` —
+    same 5'→3' order for non-self-overlapping layouts, same multiset otherwise; out-of-range requests
+    and undirected locations are refused. -/
+theorem relint_spec (l : Location) (h : WF l) (rs re : Int) (rst : Strand) :
+    okRelint l rs re rst (ans (relInterval l rs re rst)) = true :=
+  relInterval_ok l h rs re rst
 
 -- non-vacuity: a minus-strand layout with a zero-length block, a 0-bp gap and a nested block is WF
 example : WF (.compound ⟨[(0, 5), (2, 3), (5, 9), (5, 5)], .minus⟩) := by decide
